@@ -61,47 +61,57 @@ theorem crossCheckPix_lt (ops : Ops) (f : Nat) (d : CC) (h : f < 4096) : crossCh
     · exact raise_lt _ _ _ (by omega)
   · simpa using h
 
-theorem mcCnnPix_lt (ops : Ops) (f : Nat) (found : Bool) (h : f < 4096) : mcCnnPix ops f found < 4096 := by
+theorem mcCnnPix_lt (ops : Ops) (f : Nat) (fo fm : Bool) (h : f < 4096) : mcCnnPix ops f fo fm < 4096 := by
   unfold mcCnnPix
   have h1 : (if ((f &&& occlusion) != 0) = true then
-      raise ops.fill (f - occlusion * (if found = true then 1 else 0)) (filledOcclusion * (if found = true then 1 else 0))
+      raise ops.fill (f - occlusion * (if fo = true then 1 else 0)) (filledOcclusion * (if fo = true then 1 else 0))
       else f) < 4096 := by
     split
     · rename_i hb
       have hge : 2 ^ 8 ≤ f := ge_of_and_ne_zero f 8 (by simpa [occlusion] using hb)
-      cases found <;> simp only [occlusion, filledOcclusion, Bool.false_eq_true, if_false, if_true, Nat.mul_zero,
+      cases fo <;> simp only [occlusion, filledOcclusion, Bool.false_eq_true, if_false, if_true, Nat.mul_zero,
         Nat.mul_one, raise_zero, Nat.sub_zero]
       · exact h
       · exact raise_lt _ _ _ (by omega)
     · exact h
   simp only []
   generalize (if ((f &&& occlusion) != 0) = true then
-      raise ops.fill (f - occlusion * (if found = true then 1 else 0)) (filledOcclusion * (if found = true then 1 else 0))
+      raise ops.fill (f - occlusion * (if fo = true then 1 else 0)) (filledOcclusion * (if fo = true then 1 else 0))
       else f) = f1 at h1 ⊢
   split
   · rename_i hb
     have hge : 2 ^ 9 ≤ f1 := ge_of_and_ne_zero f1 9 (by simpa [mismatch] using hb)
-    exact raise_lt _ _ _ (by simp only [mismatch, filledMismatch]; omega)
+    split
+    · exact raise_lt _ _ _ (by simp only [mismatch, filledMismatch]; omega)
+    · exact h1
   · exact h1
 
-theorem sgmPix_lt (ops : Ops) (f : Nat) (near : Bool) (h : f < 4096) : sgmPix ops f near < 4096 := by
+theorem sgmPix_lt (ops : Ops) (f : Nat) (near fm fo : Bool) (h : f < 4096) : sgmPix ops f near fm fo < 4096 := by
   unfold sgmPix
   have h1 : (if ((f &&& mismatch) != 0) = true then
-      (if near = true then raise ops.fill (f - mismatch) occlusion else raise ops.fill (f - mismatch) filledMismatch)
+      (if near = true then raise ops.fill (f - mismatch) occlusion
+       else (if fm = true then raise ops.fill (f - mismatch) filledMismatch else f))
       else f) < 4096 := by
     split
     · rename_i hb
       have hge : 2 ^ 9 ≤ f := ge_of_and_ne_zero f 9 (by simpa [mismatch] using hb)
-      split <;> exact raise_lt _ _ _ (by simp only [mismatch, occlusion, filledMismatch]; omega)
+      split
+      · exact raise_lt _ _ _ (by simp only [mismatch, occlusion]; omega)
+      · split
+        · exact raise_lt _ _ _ (by simp only [mismatch, filledMismatch]; omega)
+        · exact h
     · exact h
   simp only []
   generalize (if ((f &&& mismatch) != 0) = true then
-      (if near = true then raise ops.fill (f - mismatch) occlusion else raise ops.fill (f - mismatch) filledMismatch)
+      (if near = true then raise ops.fill (f - mismatch) occlusion
+       else (if fm = true then raise ops.fill (f - mismatch) filledMismatch else f))
       else f) = f1 at h1 ⊢
   split
   · rename_i hb
     have hge : 2 ^ 8 ≤ f1 := ge_of_and_ne_zero f1 8 (by simpa [occlusion] using hb)
-    exact raise_lt _ _ _ (by simp only [occlusion, filledOcclusion]; omega)
+    split
+    · exact raise_lt _ _ _ (by simp only [occlusion, filledOcclusion]; omega)
+    · exact h1
   · exact h1
 
 theorem stepFlag_lt (ops : Ops) (hreg : ops.reg = .or) (border : Bool) (s : Step) (f : Nat) (h : f < 4096) :
@@ -118,8 +128,8 @@ theorem stepFlag_lt (ops : Ops) (hreg : ops.reg = .or) (border : Bool) (s : Step
     · exact crossCheckPix_lt ops f _ h
   · split
     · simp [leftNodataOrBorder]
-    · exact mcCnnPix_lt ops f _ h
-  · exact sgmPix_lt ops f _ h
+    · exact mcCnnPix_lt ops f _ _ h
+  · exact sgmPix_lt ops f _ _ _ h
 
 
 /-- **No undocumented bit** (`no_undocumented_bit`, full strength): whatever sequence of steps runs — any
@@ -196,23 +206,23 @@ theorem crossCheckPix_testBit (ops : Ops) (f : Nat) (d : CC) (j : Nat) :
 
 
 /-- mc-cnn interpolation: an occlusion that finds a valid pixel on its row becomes "filled occlusion"
-    (8 → 4), a mismatch becomes "filled mismatch" (9 → 5); nothing else changes.
-    Needs `|=`, or bits 4 and 5 still clear. -/
-theorem mcCnnPix_testBit (ops : Ops) (f : Nat) (found : Bool) (j : Nat)
+    (8 → 4), a mismatch that finds one along a scan direction becomes "filled mismatch" (9 → 5); nothing else
+    changes.  Needs `|=`, or bits 4 and 5 still clear. -/
+theorem mcCnnPix_testBit (ops : Ops) (f : Nat) (fo fm : Bool) (j : Nat)
     (h : ops.fill = .or ∨ (f.testBit 4 = false ∧ f.testBit 5 = false)) :
-    (mcCnnPix ops f found).testBit j =
-      ((f.testBit j && !(f.testBit 8 && found && decide (8 = j)) && !(f.testBit 9 && decide (9 = j)))
-        || (f.testBit 8 && found && decide (4 = j)) || (f.testBit 9 && decide (5 = j))) := by
+    (mcCnnPix ops f fo fm).testBit j =
+      ((f.testBit j && !(f.testBit 8 && fo && decide (8 = j)) && !(f.testBit 9 && fm && decide (9 = j)))
+        || (f.testBit 8 && fo && decide (4 = j)) || (f.testBit 9 && fm && decide (5 = j))) := by
   unfold mcCnnPix
   simp only [and256, and512, occlusion, mismatch, filledOcclusion, filledMismatch]
   -- first pass
   have p1 : ∀ i, (if f.testBit 8 = true then
-        raise ops.fill (f - 256 * (if found = true then 1 else 0)) (16 * (if found = true then 1 else 0)) else f).testBit i
-      = ((f.testBit i && !(f.testBit 8 && found && decide (8 = i))) || (f.testBit 8 && found && decide (4 = i))) := by
+        raise ops.fill (f - 256 * (if fo = true then 1 else 0)) (16 * (if fo = true then 1 else 0)) else f).testBit i
+      = ((f.testBit i && !(f.testBit 8 && fo && decide (8 = i))) || (f.testBit 8 && fo && decide (4 = i))) := by
     intro i
     cases h8 : f.testBit 8
     · simp
-    · cases found
+    · cases fo
       · simp [raise_zero']
       · simp only [if_true, Nat.mul_one, Bool.true_and]
         have hs : ∀ i, (f - 256).testBit i = (f.testBit i && !decide (8 = i)) := fun i => testBit_sub_two_pow f 8 i h8
@@ -224,54 +234,61 @@ theorem mcCnnPix_testBit (ops : Ops) (f : Nat) (found : Bool) (j : Nat)
         simp only [Nat.reducePow] at this
         rw [this, hs]
   generalize (if f.testBit 8 = true then
-        raise ops.fill (f - 256 * (if found = true then 1 else 0)) (16 * (if found = true then 1 else 0)) else f) = f1 at p1 ⊢
+        raise ops.fill (f - 256 * (if fo = true then 1 else 0)) (16 * (if fo = true then 1 else 0)) else f) = f1 at p1 ⊢
   have e9 : f1.testBit 9 = f.testBit 9 := by rw [p1]; simp
   rw [e9]
   cases h9 : f.testBit 9
   · simp [p1]
-  · simp only [if_true]
-    have h9' : f1.testBit 9 = true := by rw [e9, h9]
-    have hs : ∀ i, (f1 - 512).testBit i = (f1.testBit i && !decide (9 = i)) := fun i => testBit_sub_two_pow f1 9 i h9'
-    have h5 : ops.fill = .or ∨ (f1 - 512).testBit 5 = false := by
-      rcases h with h | h
-      · exact Or.inl h
-      · right; rw [hs, p1]; simp [h.2]
-    have := raise_testBit ops.fill (f1 - 512) 5 j h5
-    simp only [Nat.reducePow] at this
-    rw [this, hs, p1]
-    by_cases a : 8 = j <;> by_cases b : 9 = j <;> by_cases c : 4 = j <;> by_cases d : 5 = j <;>
-      simp [a, b, c, d] <;> omega
-
+  · cases fm
+    · simp [p1]
+    · simp only [if_true]
+      have h9' : f1.testBit 9 = true := by rw [e9, h9]
+      have hs : ∀ i, (f1 - 512).testBit i = (f1.testBit i && !decide (9 = i)) := fun i => testBit_sub_two_pow f1 9 i h9'
+      have h5 : ops.fill = .or ∨ (f1 - 512).testBit 5 = false := by
+        rcases h with h | h
+        · exact Or.inl h
+        · right; rw [hs, p1]; simp [h.2]
+      have := raise_testBit ops.fill (f1 - 512) 5 j h5
+      simp only [Nat.reducePow] at this
+      rw [this, hs, p1]
+      by_cases a : 8 = j <;> by_cases b : 9 = j <;> by_cases c : 4 = j <;> by_cases d : 5 = j <;>
+        simp [a, b, c, d] <;> omega
 
 set_option maxRecDepth 4000 in
-/-- sgm interpolation: a mismatch next to an occlusion is treated as an occlusion, another mismatch becomes
-    "filled mismatch" (9 → 5), every occlusion "filled occlusion" (8 → 4); nothing else changes.
+/-- sgm interpolation: a mismatch next to an occlusion is treated as an occlusion (9 → 8), another mismatch with a
+    valid neighbour in sight becomes "filled mismatch" (9 → 5), an occlusion with two valid neighbours in sight
+    "filled occlusion" (8 → 4); nothing else changes.
     Needs `|=`, or bits 4 and 5 still clear and not both 8 and 9 set. -/
-theorem sgmPix_testBit (ops : Ops) (f : Nat) (near : Bool) (j : Nat)
+theorem sgmPix_testBit (ops : Ops) (f : Nat) (near fm fo : Bool) (j : Nat)
     (h : ops.fill = .or ∨ (f.testBit 4 = false ∧ f.testBit 5 = false ∧ (f.testBit 8 && f.testBit 9) = false)) :
-    (sgmPix ops f near).testBit j =
-      ((f.testBit j && !decide (8 = j) && !decide (9 = j))
-        || (f.testBit 9 && !near && decide (5 = j)) || ((f.testBit 8 || (f.testBit 9 && near)) && decide (4 = j))) := by
+    (sgmPix ops f near fm fo).testBit j =
+      ((((f.testBit j && !(f.testBit 9 && (near || fm) && decide (9 = j))) || (f.testBit 9 && near && decide (8 = j))
+          || (f.testBit 9 && !near && fm && decide (5 = j)))
+        && !((f.testBit 8 || (f.testBit 9 && near)) && fo && decide (8 = j)))
+       || ((f.testBit 8 || (f.testBit 9 && near)) && fo && decide (4 = j))) := by
   unfold sgmPix
   simp only [occlusion, mismatch, filledOcclusion, filledMismatch]
   simp only [and256, and512]
   have p1 : ∀ i, (if f.testBit 9 = true then
-        (if near = true then raise ops.fill (f - 512) 256 else raise ops.fill (f - 512) 32) else f).testBit i
-      = ((f.testBit i && !(f.testBit 9 && decide (9 = i))) || (f.testBit 9 && near && decide (8 = i))
-          || (f.testBit 9 && !near && decide (5 = i))) := by
+        (if near = true then raise ops.fill (f - 512) 256
+         else (if fm = true then raise ops.fill (f - 512) 32 else f)) else f).testBit i
+      = ((f.testBit i && !(f.testBit 9 && (near || fm) && decide (9 = i))) || (f.testBit 9 && near && decide (8 = i))
+          || (f.testBit 9 && !near && fm && decide (5 = i))) := by
     intro i
     cases h9 : f.testBit 9
     · simp
     · have hs : ∀ i, (f - 512).testBit i = (f.testBit i && !decide (9 = i)) := fun i => testBit_sub_two_pow f 9 i h9
       cases near
-      · simp only [Bool.false_eq_true, if_false, if_true]
-        have h5 : ops.fill = .or ∨ (f - 512).testBit 5 = false := by
-          rcases h with h | h
-          · exact Or.inl h
-          · right; rw [hs]; simp [h.2.1]
-        have := raise_testBit ops.fill (f - 512) 5 i h5
-        simp only [Nat.reducePow] at this
-        rw [this, hs]; simp
+      · cases fm
+        · simp
+        · simp only [Bool.false_eq_true, if_false, if_true]
+          have h5 : ops.fill = .or ∨ (f - 512).testBit 5 = false := by
+            rcases h with h | h
+            · exact Or.inl h
+            · right; rw [hs]; simp [h.2.1]
+          have := raise_testBit ops.fill (f - 512) 5 i h5
+          simp only [Nat.reducePow] at this
+          rw [this, hs]; simp
       · simp only [if_true]
         have h8 : ops.fill = .or ∨ (f - 512).testBit 8 = false := by
           rcases h with h | h
@@ -282,30 +299,24 @@ theorem sgmPix_testBit (ops : Ops) (f : Nat) (near : Bool) (j : Nat)
         simp only [Nat.reducePow] at this
         rw [this, hs]; simp
   generalize (if f.testBit 9 = true then
-        (if near = true then raise ops.fill (f - 512) 256 else raise ops.fill (f - 512) 32) else f) = f1 at p1 ⊢
+        (if near = true then raise ops.fill (f - 512) 256
+         else (if fm = true then raise ops.fill (f - 512) 32 else f)) else f) = f1 at p1 ⊢
   have e8 : f1.testBit 8 = (f.testBit 8 || (f.testBit 9 && near)) := by rw [p1]; simp
+  rw [← e8]
   cases h8 : f1.testBit 8
-  · simp only [Bool.false_eq_true, if_false]
-    rw [e8] at h8
-    simp only [Bool.or_eq_false_iff] at h8
-    rw [p1]
-    by_cases a : 8 = j <;> by_cases b : 9 = j <;> by_cases c : 4 = j <;> by_cases d : 5 = j <;>
-      simp [a, b, c, d, h8.1, h8.2] <;> (try omega)
-    all_goals (subst_vars; simp_all)
-  · simp only [if_true]
-    have hs : ∀ i, (f1 - 256).testBit i = (f1.testBit i && !decide (8 = i)) := fun i => testBit_sub_two_pow f1 8 i h8
-    have h4 : ops.fill = .or ∨ (f1 - 256).testBit 4 = false := by
-      rcases h with h | h
-      · exact Or.inl h
-      · right; rw [hs, p1]; simp [h.1]
-    have := raise_testBit ops.fill (f1 - 256) 4 j h4
-    simp only [Nat.reducePow] at this
-    rw [this, hs, p1]
-    rw [e8] at h8
-    by_cases a : 8 = j <;> by_cases b : 9 = j <;> by_cases c : 4 = j <;> by_cases d : 5 = j <;>
-      simp [a, b, c, d] <;> (try omega)
-    all_goals (subst_vars; simp_all)
-
+  · simp [p1]
+  · cases fo
+    · simp [p1]
+    · simp only [if_true]
+      have hs : ∀ i, (f1 - 256).testBit i = (f1.testBit i && !decide (8 = i)) := fun i => testBit_sub_two_pow f1 8 i h8
+      have h4 : ops.fill = .or ∨ (f1 - 256).testBit 4 = false := by
+        rcases h with h | h
+        · exact Or.inl h
+        · right; rw [hs, p1]; simp [h.1]
+      have := raise_testBit ops.fill (f1 - 256) 4 j h4
+      simp only [Nat.reducePow] at this
+      rw [this, hs, p1]
+      simp
 
 /-! ### each step changes only its own bits -/
 
@@ -313,8 +324,8 @@ theorem sgmPix_testBit (ops : Ops) (f : Nat) (near : Bool) (j : Nat)
 def RaiseClear (ops : Ops) (s : Step) (f : Nat) : Prop :=
   match s with
   | .refine _ => ops.refine = .or ∨ f.testBit 3 = false
-  | .interpMcCnn _ => ops.fill = .or ∨ (f.testBit 4 = false ∧ f.testBit 5 = false)
-  | .interpSgm _ => ops.fill = .or ∨ (f.testBit 4 = false ∧ f.testBit 5 = false ∧ (f.testBit 8 && f.testBit 9) = false)
+  | .interpMcCnn _ _ => ops.fill = .or ∨ (f.testBit 4 = false ∧ f.testBit 5 = false)
+  | .interpSgm _ _ _ => ops.fill = .or ∨ (f.testBit 4 = false ∧ f.testBit 5 = false ∧ (f.testBit 8 && f.testBit 9) = false)
   | _ => True
 
 theorem intervals_testBit (ops : Ops) (hreg : ops.reg = .or) (f : Nat) (reg : Bool) (j : Nat) :
@@ -333,12 +344,14 @@ def expectedBit (s : Step) (f : Nat) (j : Nat) : Bool :=
   | .filter => f.testBit j
   | .filterIntervals reg => f.testBit j || (reg && decide (11 = j))
   | .crossCheck d => f.testBit j || (!isInvalid f && ((decide (d = .occlusion) && decide (8 = j)) || (decide (d = .mismatch) && decide (9 = j))))
-  | .interpMcCnn found =>
-      (f.testBit j && !(f.testBit 8 && found && decide (8 = j)) && !(f.testBit 9 && decide (9 = j)))
-        || (f.testBit 8 && found && decide (4 = j)) || (f.testBit 9 && decide (5 = j))
-  | .interpSgm near =>
-      (f.testBit j && !decide (8 = j) && !decide (9 = j))
-        || (f.testBit 9 && !near && decide (5 = j)) || ((f.testBit 8 || (f.testBit 9 && near)) && decide (4 = j))
+  | .interpMcCnn fo fm =>
+      (f.testBit j && !(f.testBit 8 && fo && decide (8 = j)) && !(f.testBit 9 && fm && decide (9 = j)))
+        || (f.testBit 8 && fo && decide (4 = j)) || (f.testBit 9 && fm && decide (5 = j))
+  | .interpSgm near fm fo =>
+      (((f.testBit j && !(f.testBit 9 && (near || fm) && decide (9 = j))) || (f.testBit 9 && near && decide (8 = j))
+          || (f.testBit 9 && !near && fm && decide (5 = j)))
+        && !((f.testBit 8 || (f.testBit 9 && near)) && fo && decide (8 = j)))
+       || ((f.testBit 8 || (f.testBit 9 && near)) && fo && decide (4 = j))
 
 /-- **`+` is `|`**: when the bit being added is clear (or the site uses `|=`), the flag after the step is the
     flag before with exactly the step's own bit changes. -/
@@ -351,10 +364,10 @@ theorem stepFlag_testBit (ops : Ops) (hreg : ops.reg = .or) (s : Step) (f j : Na
   | crossCheck d =>
     show (borderPix false (crossCheckPix ops f d)).testBit j = _
     exact crossCheckPix_testBit ops f d j
-  | interpMcCnn found =>
-    show (borderPix false (mcCnnPix ops f found)).testBit j = _
-    exact mcCnnPix_testBit ops f found j h
-  | interpSgm near => exact sgmPix_testBit ops f near j h
+  | interpMcCnn fo fm =>
+    show (borderPix false (mcCnnPix ops f fo fm)).testBit j = _
+    exact mcCnnPix_testBit ops f fo fm j h
+  | interpSgm near fm fo => exact sgmPix_testBit ops f near fm fo j h
 
 theorem stepFlag_border_rewrite (ops : Ops) (s : Step) (f : Nat) (h : rewritesBorder s = true) :
     stepFlag ops true s f = leftNodataOrBorder := by
@@ -379,8 +392,13 @@ theorem expected_raised_own (s : Step) (f k : Nat) (h : (expectedBit s f k && !f
     rcases h.2 with ⟨_, rfl⟩ | ⟨_, rfl⟩ <;> decide
   · cases hf : f.testBit k <;> simp [hf] at h
     rcases h with ⟨_, rfl⟩ | ⟨_, rfl⟩ <;> decide
-  · cases hf : f.testBit k <;> simp [hf] at h
-    rcases h with ⟨_, rfl⟩ | ⟨_, rfl⟩ <;> decide
+  · by_cases a : 4 = k
+    · subst a; decide
+    · by_cases b : 5 = k
+      · subst b; decide
+      · by_cases c : 8 = k
+        · subst c; decide
+        · cases hf : f.testBit k <;> simp [hf, a, b, c] at h
 
 theorem expected_cleared_may (s : Step) (f k : Nat) (h : (f.testBit k && !expectedBit s f k) = true) :
     (mayClear s).testBit k = true := by
@@ -389,17 +407,15 @@ theorem expected_cleared_may (s : Step) (f k : Nat) (h : (f.testBit k && !expect
   · cases hf : f.testBit k <;> simp [hf] at h
   · cases hf : f.testBit k <;> simp [hf] at h
   · cases hf : f.testBit k <;> simp [hf] at h
-  · cases hf : f.testBit k <;> simp [hf] at h
-    by_cases a : 8 = k
+  · by_cases a : 8 = k
     · subst a; decide
     · by_cases b : 9 = k
       · subst b; decide
-      · simp [a, b] at h
-  · cases hf : f.testBit k <;> simp [hf] at h
-    by_cases a : 8 = k
+      · cases hf : f.testBit k <;> simp [hf, a, b] at h
+  · by_cases a : 8 = k
     · subst a; decide
     · by_cases b : 9 = k
       · subst b; decide
-      · simp [a, b] at h
+      · cases hf : f.testBit k <;> simp [hf, a, b] at h
 
 end Pandora.C04
